@@ -272,19 +272,19 @@ def _ctor(spec, ctx):
                 ctx.violation("sa/burn-in-length", f"n_iter={n_iter}, n_burn_in_iter_frac={frac}: memory-less phase resolved to {got}, the configured fraction gives {sorted(allowed)}",
                               {"index": pct * 1000 + n_iter, "n_iter": n_iter, "frac": frac})
     for n_iter in (1, 7, 40, 100):
-        for count in (0, 1, n_iter // 2, n_iter, n_iter + 5):
+        for count in (0, 1, n_iter // 2, n_iter, n_iter + 5, np.int64(n_iter // 3), np.int32(max(n_iter - 1, 0)), np.int64(0)):
             for frac in (None, 0.3, 0.9):
                 with warnings.catch_warnings():
                     warnings.simplefilter("ignore")
                     try:
                         a = algorithm_factory(AlgorithmSettings("mcmc_saem", n_iter=n_iter, n_burn_in_iter=count, n_burn_in_iter_frac=frac, progress_bar=False))
                     except LeaspyAlgoInputError as e:
-                        ctx.violation("sa/admissible-configuration-refused", f"explicit count {count} (fraction {frac}) refused: {str(e)[:100]}", {"index": -1, "n_iter": n_iter, "count": count, "frac": frac})
+                        ctx.violation("sa/admissible-configuration-refused", f"explicit count {count} (fraction {frac}) refused: {str(e)[:100]}", {"index": -1, "n_iter": n_iter, "count": int(count), "count_type": type(count).__name__, "frac": frac})
                         continue
                 n_checked += 1
                 if a.algo_parameters["n_burn_in_iter"] != count:
                     ctx.violation("sa/burn-in-length", f"explicit count {count} (fraction {frac}, n_iter {n_iter}) resolved to {a.algo_parameters['n_burn_in_iter']}",
-                                  {"index": -1, "n_iter": n_iter, "count": count, "frac": frac})
+                                  {"index": -1, "n_iter": n_iter, "count": int(count), "count_type": type(count).__name__, "frac": frac})
     # one settings object used for several algorithms, its iteration count (or fraction) changed by the caller in between: each algorithm
     # resolves the length from the settings as they are when it is built
     r2 = ctx.rng("ctor-reuse")
